@@ -2,21 +2,99 @@ import YaclibModel.Proofs.FiberSyncSharedStep0
 import YaclibModel.Proofs.FiberSyncSharedStep1
 import YaclibModel.Proofs.FiberSyncSharedStep2
 import YaclibModel.Proofs.FiberSyncSharedStep3
+import YaclibModel.Proofs.FiberSyncSharedStep4
+import YaclibModel.Proofs.FiberSyncSharedStep5
 namespace Yaclib.FiberSync.Sm
 open Yaclib.FiberSync
 
 theorem inv_step {k s l s'} (hi : Inv k s) (hs : Step s l s') : Inv k s' := by
-  have h4 : grpOf l = 0 ∨ grpOf l = 1 ∨ grpOf l = 2 ∨ grpOf l = 3 := by
+  have h6 : grpOf l = 0 ∨ grpOf l = 1 ∨ grpOf l = 2 ∨ grpOf l = 3 ∨ grpOf l = 4 ∨ grpOf l = 5 := by
     cases l <;> simp [grpOf]
-  rcases h4 with h | h | h | h
+  rcases h6 with h | h | h | h | h | h
   · exact inv_step_0 hi hs h
   · exact inv_step_1 hi hs h
   · exact inv_step_2 hi hs h
   · exact inv_step_3 hi hs h
+  · exact inv_step_4 hi hs h
+  · exact inv_step_5 hi hs h
 
-theorem inv_reachable {k n s} (h : Reachable k false n s) : Inv k s := by
+theorem inv_reachable {k n s} (h : Reachable k n s) : Inv k s := by
   induction h with
   | init => exact inv_init k n
   | step _ hs ih => exact inv_step ih hs
+
+/-- in a quiescent state every fiber has finished, or is a parked writer, or a parked reader -/
+theorem quiescent_classify {k s} (hi : Inv k s) (hq : Quiescent s) (f : Fid) :
+    s.pc f = .done ∨ s.pc f = .xParked ∨ s.pc f = .sParked := by
+  cases hp : s.pc f with
+  | idle => exact absurd (Step.finish s f hp) (hq _ _)
+  | done => exact Or.inl rfl
+  | xParked => exact Or.inr (Or.inl rfl)
+  | sParked => exact Or.inr (Or.inr rfl)
+  | txParked r d =>
+      exact absurd (Step.txTimeout s f (max s.now d) r d (hi.tx_timed f r d hp) hp (Nat.le_max_right _ _)
+        (Nat.le_max_left _ _)) (hq _ _)
+  | tsParked r d =>
+      exact absurd (Step.tsTimeout s f (max s.now d) r d (hi.ts_timed f r d hp) hp (Nat.le_max_right _ _)
+        (Nat.le_max_left _ _)) (hq _ _)
+  | xLocking =>
+      cases ho : s.occ with
+      | false => exact absurd (Step.xRecheckAcq s f hp ho) (hq _ _)
+      | true => exact absurd (Step.xRepark s f hp ho) (hq _ _)
+  | sLocking =>
+      by_cases hx : XHeld s
+      · exact absurd (Step.sRepark s f hp hx) (hq _ _)
+      · exact absurd (Step.sRecheckAcq s f hp hx) (hq _ _)
+  | txLocking r =>
+      cases ho : s.occ with
+      | false => exact absurd (Step.txRecheckAcq s f r (hi.txl_timed f r hp) hp ho) (hq _ _)
+      | true => exact absurd (Step.txRepark s f r 0 (hi.txl_timed f r hp) hp ho) (hq _ _)
+  | tsLocking r =>
+      by_cases hx : XHeld s
+      · exact absurd (Step.tsRepark s f r 0 (hi.tsl_timed f r hp) hp hx) (hq _ _)
+      · exact absurd (Step.tsRecheckAcq s f r (hi.tsl_timed f r hp) hp hx) (hq _ _)
+  | sleeping d =>
+      exact absurd (Step.sleepWake s f (max s.now d) d hp (Nat.le_max_right _ _) (Nat.le_max_left _ _)) (hq _ _)
+
+/-- … a parked writer is parked because the lock is held (by a writer or by readers) … -/
+theorem quiescent_writer_held {k s} (hi : Inv k s) (hq : Quiescent s) (f : Fid) (hp : s.pc f = .xParked) :
+    s.occ = true ∧ (s.xh ≠ [] ∨ s.sh ≠ []) := by
+  have heq : s.eq ≠ [] := by
+    intro h0
+    have := hi.pc_eq f (by rw [hp]; rfl)
+    rw [h0] at this; cases this
+  have ho : s.occ = true := by
+    cases ho : s.occ with
+    | true => rfl
+    | false =>
+        exfalso
+        have ht := hi.free_transit ho heq
+        cases htr : s.transit with
+        | nil => exact ht htr
+        | cons g rest =>
+            have hw := hi.transit_pc g (by rw [htr]; simp)
+            cases hg : s.pc g with
+            | xLocking => exact (hq _ _) (Step.xRecheckAcq s g hg ho)
+            | txLocking r => exact (hq _ _) (Step.txRecheckAcq s g r (hi.txl_timed g r hg) hg ho)
+            | _ => rw [hg] at hw; simp [Pc.recheckX] at hw
+  refine ⟨ho, ?_⟩
+  rcases hi.modes with ⟨h0, _⟩ | ⟨_, _, hx, _⟩ | ⟨_, _, _, hs, hpos⟩
+  · rw [ho] at h0; cases h0
+  · left; intro h0; rw [h0] at hx; simp at hx
+  · right; intro h0; rw [h0] at hs; simp at hs; omega
+
+/-- … and a parked reader is parked because a writer holds the lock -/
+theorem quiescent_reader_held {k s} (hi : Inv k s) (f : Fid) (hp : s.pc f = .sParked) :
+    s.occ = true ∧ s.excl = true ∧ s.xh ≠ [] := by
+  have hsq : s.sq ≠ [] := by
+    intro h0
+    have := hi.pc_sq f (by rw [hp]; rfl)
+    rw [h0] at this; cases this
+  have hh := hi.sq_held hsq
+  refine ⟨hh.1, hh.2, ?_⟩
+  rcases hi.modes with ⟨h0, _⟩ | ⟨_, _, hx, _⟩ | ⟨_, he, _⟩
+  · rw [hh.1] at h0; cases h0
+  · intro h0; rw [h0] at hx; simp at hx
+  · rw [hh.2] at he; cases he
 
 end Yaclib.FiberSync.Sm
